@@ -15,6 +15,11 @@
   * `prefix_free` : every proper prefix of an accepted item is rejected (truncation at every byte).
 -/
 import RefmtModel
+import RefmtProofs.Lemmas.HalfTable
+import RefmtProofs.Lemmas.CborBasic
+import RefmtProofs.Lemmas.CborParse
+import RefmtProofs.Lemmas.CborMachine
+import RefmtProofs.Lemmas.CborRun
 set_option linter.unusedSimpArgs false
 set_option linter.unusedVariables false
 namespace Refmt.C04
@@ -25,26 +30,45 @@ theorem refine (coerce : Bool) (bs : Bytes) (hb : ∀ x ∈ bs, x < 256) :
     match Spec.Cbor.parse coerce bs with
     | some (v, rest) => o.toks = v.flatten ∧ o.res = .ok () ∧ o.rd.data = rest
     | none => ∃ e, o.res = .error e := by
-  sorry
+  intro o
+  have hrun := run_eq coerce (2 * bs.length + 2) CborDec.init ⟨bs, none, 0⟩ [] 0 0
+  have ho : o = CborDec.run coerce (2 * bs.length + 2) CborDec.init ⟨bs, none, 0⟩ [] 0 0 := rfl
+  have htop := top_run coerce bs hb
+  cases hp : Spec.Cbor.parse coerce bs with
+  | none =>
+    rw [hp] at htop
+    dsimp only at htop ⊢
+    obtain ⟨e, he⟩ := htop
+    rw [← hrun] at he
+    exact ⟨e, by rw [ho]; exact he⟩
+  | some p =>
+    obtain ⟨v, rest⟩ := p
+    rw [hp] at htop
+    dsimp only at htop ⊢
+    rw [← hrun] at htop
+    simp only [Prod.mk.injEq] at htop
+    rw [ho]
+    refine ⟨htop.1, htop.2.1, ?_⟩
+    rw [htop.2.2]
 
 theorem half_exact (h : Nat) (hh : h < 65536) :
-    f32to64 (halfToFloatBits h) = Spec.Cbor.halfToF64 h := by
-  sorry
+    f32to64 (halfToFloatBits h) = Spec.Cbor.halfToF64 h :=
+  HalfTable.half_exact h hh
 
 theorem negint_exact (rd : Rd) (major : Nat) (i : Int) (hm : 0x20 ≤ major ∧ major < 0x40)
     (h : (CborDec.decNegInt rd major).res = .ok i) :
-    ∃ n, (CborDec.decUint rd major).res = .ok n ∧ i = -1 - (n : Int) ∧ n < two63 := by
-  sorry
+    ∃ n, (CborDec.decUint rd major).res = .ok n ∧ i = -1 - (n : Int) ∧ n < two63 :=
+  negint_exact' rd major i h
 
 /-- What the reference decoder consumed is a prefix of the input. -/
 theorem parse_consumes (coerce : Bool) (bs : Bytes) (v : TV) (rest : Bytes)
-    (h : Spec.Cbor.parse coerce bs = some (v, rest)) : ∃ used, bs = used ++ rest ∧ used ≠ [] := by
-  sorry
+    (h : Spec.Cbor.parse coerce bs = some (v, rest)) : ∃ used, bs = used ++ rest ∧ used ≠ [] :=
+  parse_consumes' coerce bs v rest h
 
 theorem prefix_free (coerce : Bool) (bs : Bytes) (v : TV)
     (h : Spec.Cbor.parse coerce bs = some (v, [])) (p : Bytes) (hp : p <+: bs) (hne : p ≠ bs) :
-    Spec.Cbor.parse coerce p = none := by
-  sorry
+    Spec.Cbor.parse coerce p = none :=
+  prefix_free' coerce bs v h p hp hne
 
 example : (Spec.Cbor.parse false [0xa1, 0x61, 0x6b, 0x9f, 0x05, 0x24, 0xff, 0x00]).map (fun p => (p.1.flatten, p.2)) =
     some ([⟨.mapOpen 1, none⟩, ⟨.str [0x6b], none⟩, ⟨.arrOpen (-1), none⟩, ⟨.uint 5, none⟩, ⟨.int (-5), none⟩,
